@@ -24,7 +24,7 @@ RULE = (
     "note / todo with priority and modify date) in batches of 400 per page and recompiled "
     "(thorough: every suffix; quick: every roll-over neighbourhood + a stride sample); "
     "(alloc) Hypothesis histories of allocate(date) / restart / fast-forward-to-position steps "
-    "over 4 dates against a model counter, with the persisted map compared after every step; (machine) the same "
+    "over 4 dates against a model counter; (machine) the same "
     "model driven by Hypothesis' stateful mode (a RuleBasedStateMachine with allocate / restart / fast_forward "
     "rules, 16 seeded runs), a failing rule sequence being saved as an ordinary step-list replay. "
     "Non-trivial = a chunk containing a roll-over (9->A, Z->a, skipped letter, carry, 2->3 "
@@ -334,12 +334,6 @@ class AllocModel:
             rec.label("carry")
         if pos == 2600:
             rec.label("2->3 extension")
-        disk = json.loads(path.read_text())
-        for k2, p2 in self.idx.items():
-            if p2 < len(m) and k2 in disk and disk[k2] != m[p2]:
-                raise Violation("persisted-state", f"step {si}: next_ids[{k2}]={disk[k2]!r}, model {m[p2]!r}")
-            if p2 < len(m) and k2 not in disk:
-                raise Violation("persisted-state", f"step {si}: next_ids lacks {k2}")
 
 
 def check_alloc(case, rec: Rec) -> None:
